@@ -15,7 +15,8 @@ Lexemes == { B("PRINT"), B("GO"), B("TO"), B("GOSUB"), B("IF"), B("THEN"), B("FO
              B("<"), B(">"), B("="), B(":"), B(","), B("$"), B(" "), B("+"), <<195, 169>>,
              B("REM"), B("DATA"), B("data "), B("("), B("x1"), B("\"\","),
              <<92, 9, 239, 184, 143, 7>>,
-             B("\"-1E3\",") }      \* a quoted DATA item that would be a number without its quotes      \* backslash, TAB, U+FE0F, BEL: text that only means something inside strings, REM and DATA       \* `"",` : an explicitly empty DATA item followed by another
+             B("\"-1E3\","),
+             B("I") \o <<230, 151, 165>>, B("STO") \o <<208, 144>> }     \* `I` + a character whose first byte is F with bits 7 and 5 set; `STO` + one whose first byte is P with bit 7 set      \* a quoted DATA item that would be a number without its quotes      \* backslash, TAB, U+FE0F, BEL: text that only means something inside strings, REM and DATA       \* `"",` : an explicitly empty DATA item followed by another
 
 \* Numerals of hundreds of digits (C14): the model's boundary between the largest
 \* number and "too large to be a number" is 2^1024 - 2^970, as in IEEE rounding.
